@@ -251,6 +251,8 @@ def addr(rng):
 def eth_valid(rng):
     vlan = rng.random() < 0.5
     ty = rng.boundary(16)
+    if vlan and rng.random() < 0.25:
+        ty = 0x8100                       # legal with the VLAN switch: the type after the tag is again 0x8100
     if not vlan and ty == 0x8100:
         ty = 0x0800
     return {"dstmac": str(rng.boundary(48)), "srcmac": str(rng.boundary(48)), "type": str(ty),
@@ -759,6 +761,8 @@ def oracles_C02(ctx, hints):
         for fcs in (False, True):
             for j in range(ctx.scale(25, 600) * k):
                 ty = rng.boundary(16)
+                if vlan and j % 5 == 0:
+                    ty = 0x8100                   # legal with the VLAN switch (inner type 0x8100)
                 if ty == 0x8100 and not vlan:
                     ty = 0x86DD
                 f = {"dstmac": rng.boundary(48), "srcmac": rng.boundary(48), "type": ty, "vlantag": rng.boundary(16)}
@@ -892,6 +896,8 @@ def check_ipv4_checksum(args):
         setattr(i, k, v)
     i.payload = bytes.fromhex(args["payload"])
     b = i.pack()
+    if b[0] != 0x45:
+        return "IP.pack emits version/IHL byte %#04x for an option-less 20-byte header (fields %r)" % (b[0], {k: f[k] for k in f if k in ("version", "ihl")})
     protected = b[:10] + b"\0\0" + b[12:20]
     want = _spec_int(gen.F("spec.rfc1071", hexb(protected)))
     if want != ref_rfc1071(protected):
@@ -1007,6 +1013,9 @@ def oracles_C07(ctx, hints):
              "protocol": rng.boundary(8), "dscp": rng.boundary(8), "id": rng.boundary(16), "ttl": rng.boundary(8)}
         if j % 5 == 0:
             f.update({"srcip": "255.255.255.255", "dstip": "255.255.255.255", "id": 65535, "ttl": 255, "protocol": 255, "dscp": 255})
+        if j % 6 == 1:
+            # what unpack() of a header with options (or of another IP version) leaves in the object
+            f["ihl"], f["version"] = rng.choice([5, 6, 7, 15]), rng.choice([4, 4, 6])
         args = {"fields": f, "payload": rng.bytes_(rng.choice([0, 1, 1480])).hex()}
         if run("ipv4_checksum", check_ipv4_checksum, args, {"class": "IP", "check": "checksum"}):
             break
